@@ -8,6 +8,9 @@ event, close() of the whole server, the peer half-closing its sending side so th
 other direction stays open, so everything written before must still arrive), loop iterations and peer reads at drawn moments (a stalling peer + small SO_SNDBUF / pipe size give real
 partial sends).  Every send()/os.write() call of the endpoint consults a fault script drawn from the tape: accept k of n bytes, raise
 EAGAIN/EWOULDBLOCK/EINTR/ENOBUFS (nothing sent), raise EPIPE/ECONNRESET (connection dead afterwards).
+A rare configuration (1 run in 40 in quick, 1 in 10 in thorough) models an OS with a very large send buffer ("however the OS accepts
+it"): one send()/write() call may accept a whole payload however large (NET.greedy for sockets, the same loop in the fd_write wrapper
+for File; the remote end drains meanwhile), and ONE payload of 1 MiB + {1, 4096, 300000} bytes is written among small ones.
 
 Oracle (ground truth = the bytes the OS accepted, recorded by the interposer; clauses quote the statement):
   * "handed to the OS in order and each byte exactly once ... partial sends and transient refusals lose, repeat or reorder nothing":
